@@ -63,11 +63,16 @@ class Quant:
         a, low = self.ast, self.low
         out = []
         for o in a.walk():
-            if o.get('kind') == 'FunctionDecl' and low.has_body(o) and any(x.get('kind') == 'TemplateArgument' for x in o.get('inner', ())):
+            if o.get('kind') == 'FunctionDecl' and low.has_body(o):
                 par = a.up(o)
-                if not (par and par.get('kind') == 'FunctionTemplateDecl') or low._in_use_ns(o):
+                if par is None or low._in_use_ns(o):
                     continue
-                if (a.up(par) or {}).get('name') != 'PhQ':
+                if par.get('kind') == 'FunctionTemplateDecl':
+                    if not any(x.get('kind') == 'TemplateArgument' for x in o.get('inner', ())):
+                        continue      # the uninstantiated pattern
+                    if (a.up(par) or {}).get('name') != 'PhQ':
+                        continue
+                elif not (par.get('kind') == 'NamespaceDecl' and par.get('name') == 'PhQ'):
                     continue
                 if a.byid.get(o['id']) is not o:
                     continue
